@@ -67,7 +67,10 @@ RULE = ("data.req: generated datasets of 1-4 inputs (+ optional climatology, sub
         "does not store: error exit), 12 axes and every slice index; data.noninterference: the request list again after "
         "every finite value of every field except the observation (fcst, PIT, CDF / quantile columns, members, other "
         "scores) of every OTHER scored input was changed; data.exh: exhaustive NaN patterns of 2 inputs x (2x1x2 "
-        "cases) x {obs,fcst}; non-trivial = some request returns >= 1 finite value")
+        "cases) x {obs,fcst}; every sixth dataset with -obsrange 0,2, about a quarter of those with >= 2 files whose OWN "
+        "observations disagree across the ends of the range in common cases (inside / exactly on an end in one file, "
+        "outside in the other: each input is filtered by its own observation; the cross-input comparison of the case "
+        "sets is made only under ObsAgree); non-trivial = some request returns >= 1 finite value")
 EXHAUSTIVE = {"quick": False, "thorough": True}
 EXHAUSTIVE_NOTE = "thorough: all 2^16 missingness patterns of 2 inputs x 4 cases x {obs, fcst}"
 LEVEL_TEXT = ("Lean theorems about the pure model of Data: after loading, a cell of a field is missing in one input iff it "
@@ -95,6 +98,8 @@ def gen_ops(tier, rng):
         ds = dg.gen_dataset(rng)
         if k % 6 == 5:
             ds.cfg["obsrange"] = (0.0, 2.0)     # -obsrange removes the same cases for every input
+            # … when the inputs' observations agree; a quarter of these: own observations that disagree across 0 / 2
+            ds = dg.with_obs_disagreement(ds)
         if k % 5 == 2:
             ds = dg.add_field_options(ds, rng)  # -obs FIELD / -fcst FIELD
         dims = dg.oracle_dims(ds)
@@ -203,6 +208,9 @@ def _judge_oracle(op, impl_out):
     if head != want_head:
         return ({"kind": "dims"}, "verified dimensions %s, documented %s" % (head, want_head))
     per_key = {}
+    # ObsAgree (ASSUMPTIONS): with observations that differ between the files the inputs are NOT scored on the same
+    # cases / observations (each is filtered by its own); the per-request answer is still judged
+    agree = dg.obs_agree(ds)
     for r, got in zip(reqs, answers):
         want = dg.oracle_answer(ds, dims, r)
         if want is None:
@@ -216,7 +224,7 @@ def _judge_oracle(op, impl_out):
             key = (tuple(r[0]), r[2], r[3])
             n = len(got.split(";")[0].split(","))
             obs = got.split(";")[r[0].index("obs")] if "obs" in r[0] else None
-            if key in per_key and per_key[key] != (n, obs):
+            if key in per_key and per_key[key] != (n, obs) and agree:
                 return ({"kind": "case-set-differs"},
                         "inputs are scored on different cases/observations for %s: %s vs %s" % (key, per_key[key], (n, obs)))
             per_key[key] = (n, obs)
